@@ -4,6 +4,8 @@ import (
 	"go/ast"
 	"go/token"
 	"go/types"
+
+	"golang.org/x/tools/go/ast/astutil"
 )
 
 // canonShape brings statement lists into one spelling, on every tree alike:
@@ -634,4 +636,171 @@ func (n *normaliser) coalesceOne(fd *ast.FuncDecl) bool {
 		return true
 	})
 	return done
+}
+
+// coalesceMultiCopies: a local x whose every assignment is a plain copy of one other local y
+// (`x = y` on each path out of an inlined helper that returned its local from several places), with x
+// never mentioned before the first copy and y never mentioned after the last one, is y: the copies are
+// dropped and x's mentions become y's. Neither may be captured by a function literal or have its address
+// taken.
+func (n *normaliser) coalesceMultiCopies(fd *ast.FuncDecl) bool {
+	// tree-order index of every node
+	order := map[ast.Node]int{}
+	i := 0
+	ast.Inspect(fd.Body, func(x ast.Node) bool {
+		if x != nil {
+			order[x] = i
+			i++
+		}
+		return true
+	})
+	pinned := map[types.Object]bool{}
+	ast.Inspect(fd, func(x ast.Node) bool {
+		switch y := x.(type) {
+		case *ast.FuncLit:
+			ast.Inspect(y, func(z ast.Node) bool {
+				if id, ok := z.(*ast.Ident); ok {
+					if o := n.info.Uses[id]; o != nil {
+						pinned[o] = true
+					}
+				}
+				return true
+			})
+		case *ast.UnaryExpr:
+			if y.Op == token.AND {
+				if o := rootVar(n.info, y.X); o != nil {
+					pinned[o] = true
+				}
+			}
+		}
+		return true
+	})
+	type info struct {
+		copies []*ast.AssignStmt
+		src    *types.Var
+		other  bool
+	}
+	byX := map[*types.Var]*info{}
+	ast.Inspect(fd.Body, func(x ast.Node) bool {
+		as, ok := x.(*ast.AssignStmt)
+		if !ok {
+			return true
+		}
+		for li, l := range as.Lhs {
+			id, isID := l.(*ast.Ident)
+			if !isID {
+				continue
+			}
+			xv, _ := n.info.Uses[id].(*types.Var)
+			if xv == nil {
+				xv, _ = n.info.Defs[id].(*types.Var)
+			}
+			if xv == nil || xv.IsField() {
+				continue
+			}
+			in := byX[xv]
+			if in == nil {
+				in = &info{}
+				byX[xv] = in
+			}
+			var yv *types.Var
+			if len(as.Lhs) == 1 && len(as.Rhs) == 1 && (as.Tok == token.ASSIGN || as.Tok == token.DEFINE) {
+				if rid, isRID := as.Rhs[0].(*ast.Ident); isRID {
+					yv, _ = n.info.Uses[rid].(*types.Var)
+				}
+			}
+			_ = li
+			if yv == nil || yv == xv || yv.IsField() || !types.Identical(xv.Type(), yv.Type()) || (in.src != nil && in.src != yv) {
+				in.other = true
+				continue
+			}
+			in.src = yv
+			in.copies = append(in.copies, as)
+		}
+		return true
+	})
+	for xv, in := range byX {
+		if in.other || len(in.copies) < 2 || in.src == nil || pinned[xv] || pinned[in.src] || n.isParamOrResult(fd, xv) {
+			continue
+		}
+		yv := in.src
+		if yv.Pkg() == nil || yv.Parent() == yv.Pkg().Scope() {
+			continue
+		}
+		first, last := 1<<30, -1
+		isCopy := map[ast.Node]bool{}
+		for _, cp := range in.copies {
+			isCopy[cp] = true
+			if order[cp] < first {
+				first = order[cp]
+			}
+			if order[cp] > last {
+				last = order[cp]
+			}
+		}
+		ok := true
+		var stack []ast.Node
+		ast.Inspect(fd.Body, func(x ast.Node) bool {
+			if x == nil {
+				stack = stack[:len(stack)-1]
+				return false
+			}
+			stack = append(stack, x)
+			id, isID := x.(*ast.Ident)
+			if !isID {
+				return true
+			}
+			inCopy := false
+			for _, a := range stack {
+				if isCopy[a] {
+					inCopy = true
+				}
+			}
+			if inCopy {
+				return true
+			}
+			o := n.info.Uses[id]
+			if o == nil {
+				o = n.info.Defs[id]
+			}
+			if o == types.Object(xv) && order[id] < first {
+				ok = false
+			}
+			if o == types.Object(yv) && order[id] > last {
+				ok = false
+			}
+			return true
+		})
+		if !ok {
+			continue
+		}
+		// x is y
+		ast.Inspect(fd.Body, func(x ast.Node) bool {
+			if id, isID := x.(*ast.Ident); isID {
+				if n.info.Uses[id] == types.Object(xv) {
+					n.info.Uses[id] = yv
+					id.Name = yv.Name()
+				}
+				if n.info.Defs[id] == types.Object(xv) {
+					delete(n.info.Defs, id)
+					n.info.Uses[id] = yv
+					id.Name = yv.Name()
+				}
+			}
+			return true
+		})
+		astutil.Apply(fd.Body, nil, func(c *astutil.Cursor) bool {
+			if isCopy[c.Node()] {
+				if c.Index() >= 0 {
+					c.Delete()
+				} else {
+					c.Replace(&ast.EmptyStmt{Implicit: true})
+				}
+			}
+			return true
+		})
+		n.p.mutated = true
+		return true
+	}
+	return false
 }
